@@ -113,12 +113,13 @@ def addrArith (op : Char) (a k : Nat) : Option Int :=
   if op == '+' then some ((a : Int) + k) else if op == '-' then some ((a : Int) - k)
   else if op == '*' then some ((a : Int) * k) else (if k = 0 then none else some ((a / k : Nat) : Int))
 
-/-- `NumericValue(z, size_hint=4, mode=EXTENDED)` with the exception escaping -/
+/-- `NumericValue(z, size_hint=4, mode=EXTENDED)`; a value that does not fit is reported as a
+TranslationError (`diag`) since fix 8dc2b21/316e504 (it used to escape as `internal`) -/
 def addrResult (z : Int) : Outcome Value :=
-  if z > 65535 then .internal else .ok (.numeric z.natAbs (some 4) .extended (decide (z < 0)))
+  if z > 65535 then .diag else .ok (.numeric z.natAbs (some 4) .extended (decide (z < 0)))
 
 theorem numericOfInt_ext (z : Int) :
-    (match numericOfInt z (some 4) .extended with | .ok nv => Outcome.ok nv | .error _ => .internal) =
+    (match numericOfInt z (some 4) .extended with | .ok nv => Outcome.ok nv | .error _ => .diag) =
       addrResult z := by
   unfold numericOfInt addrResult
   by_cases h : z > 65535 <;> simp [h, initHint, postInit]
@@ -126,12 +127,12 @@ theorem numericOfInt_ext (z : Int) :
 theorem addrOffset_addr_num (ss : List Stmt) (ai a k : Nat) (ma mk m : Mode) (hk : Option Nat) (nk ae : Bool)
     (op : Char) (h : addrIntOf ss ai = some a) :
     addrOffset ss (.expr (.address ai ma) (.numeric k hk mk nk) op m ae) =
-      (match addrArith op a k with | none => .internal | some z => addrResult z) := by
+      (match addrArith op a k with | none => .diag | some z => addrResult z) := by
   simp only [addrOffset, Value.isAddress, Value.isNumeric, Value.int?, if_true, Bool.false_eq_true, if_false]
   simp only [h]
   change (match addrArith op a k with
-    | none => Outcome.internal
-    | some z => (match numericOfInt z (some 4) .extended with | .ok nv => Outcome.ok nv | .error _ => .internal)) = _
+    | none => Outcome.diag
+    | some z => (match numericOfInt z (some 4) .extended with | .ok nv => Outcome.ok nv | .error _ => .diag)) = _
   cases addrArith op a k with
   | none => rfl
   | some z => exact numericOfInt_ext z
@@ -141,12 +142,12 @@ theorem addrOffset_addr_num (ss : List Stmt) (ai a k : Nat) (ma mk m : Mode) (hk
 theorem addrOffset_num_addr (ss : List Stmt) (ai a k : Nat) (ma mk m : Mode) (hk : Option Nat) (nk ae : Bool)
     (op : Char) (h : addrIntOf ss ai = some a) :
     addrOffset ss (.expr (.numeric k hk mk nk) (.address ai ma) op m ae) =
-      (match addrArith op a k with | none => .internal | some z => addrResult z) := by
+      (match addrArith op a k with | none => .diag | some z => addrResult z) := by
   simp only [addrOffset, Value.isAddress, Value.isNumeric, Value.int?, if_true, Bool.false_eq_true, if_false]
   simp only [h]
   change (match addrArith op a k with
-    | none => Outcome.internal
-    | some z => (match numericOfInt z (some 4) .extended with | .ok nv => Outcome.ok nv | .error _ => .internal)) = _
+    | none => Outcome.diag
+    | some z => (match numericOfInt z (some 4) .extended with | .ok nv => Outcome.ok nv | .error _ => .diag)) = _
   cases addrArith op a k with
   | none => rfl
   | some z => exact numericOfInt_ext z
